@@ -9,6 +9,7 @@ package eval
 import (
 	"errors"
 	"net"
+	"sort"
 	"strings"
 
 	netv1 "k8s.io/api/networking/v1"
@@ -92,7 +93,15 @@ func (pe *PolicyEngine) getPoliciesSelectingPod(peer k8s.Peer, direction netv1.P
 	}
 	p := peer.(*k8s.PodPeer).Pod
 	netpols := pe.netpolsMap[p.Namespace]
-	for _, policy := range netpols {
+	// the policies are visited in the order of their names: which policy an error is reported for (and the order in which
+	// the callers walk the result) must not depend on the iteration order of the map
+	policiesNames := make([]string, 0, len(netpols))
+	for name := range netpols {
+		policiesNames = append(policiesNames, name)
+	}
+	sort.Strings(policiesNames)
+	for _, name := range policiesNames {
+		policy := netpols[name]
 		selects, err := policy.Selects(p, direction)
 		if err != nil {
 			return nil, err
